@@ -29,7 +29,7 @@ def shape(bindings, style):
 
 
 def gen_history(src):
-    g = GEN.G(src, wrong=0.08)
+    g = GEN.G(src, wrong=0.08, dup_keys=0.12)
     # one set of names/kinds, several value assignments (so every expression parses the same way in every scope)
     env, names = {}, []
     for name in src.sample(["a", "b", "c", "d", "e", "n", "s", "t", "xs", "ys", "cx", "cy"], src.int(3, 7)):
